@@ -1,6 +1,6 @@
 """C09 — the 2D cross-section interface equals the 3D interface along the section."""
 from .. import facts, run
-from ..rules import expr, fwd, layout
+from ..rules import expr, fwd, layout, pure
 
 
 def main(tier):
@@ -11,6 +11,11 @@ def main(tier):
     tables, outv, counter = layout.width_tables(P, rep)
     layout.wrapper2d(P, rep, counter)
     fwd.convenience_members(P, rep)
+    # the 2D entry points keep no state between calls (a cached coordinate system or cross section would tie one world's
+    # answers to another world queried earlier)
+    roots2d = [f for f in pure.query_roots(P) if f.params and 'array<double, 2>' in P.d(f.params[0]).get('t', '')]
+    rep.floor('PURE.roots2d', len(roots2d), 5, '2D entry points')
+    pure.run(P, rep, roots2d)
     rep.assumptions.append("equality of the 2D and 3D answers beyond 'same callee, mapped arguments, projected velocity' is not decided")
     rep.explanation = ("Algebraic form of the cross-section direction and of the 2D->3D point map in both coordinate systems, "
                        "release-active refusal as first statement, width-table agreement of the 2D slot walker, velocity "
